@@ -4,8 +4,10 @@ proof  : lean/Pyunicorn/Properties/C10.lean (lag bookkeeping, first-strict-|max|
          symmetrize_by_absmax, histogram index walks, mirrored / unmirrored MI matrices,
          signed-square Pearson: symmetry / bound / affine invariance / relabelling, ranks and
          their sum, quantile symbols, compiled == pure-Python windows, partial covariances of
-         the Gaussian estimators, normalised inverse; slice arithmetic regenerated from the
-         source by translate/gen_arith.py (arith_C10.json))
+         the Gaussian estimators (|r| <= 1 through residual vectors), normalised inverse; round 3:
+         the kNN kernel (growing cube, bounded insertion sort, counts, termination), only_tri /
+         _calculate_mi of the pure-Python class, surrogate matrices for every draw; slice / loop
+         arithmetic regenerated from the source by translate/gen_arith.py (arith_C10.json))
 tie    : exact correspondence of the Lean model with the compiled kernels at the kernel
          boundary on dyadic / small-integer inputs (rationals, integers, counts), and a
          tolerance correspondence (float32) with CouplingAnalysis.cross_correlation
@@ -311,7 +313,10 @@ def run(ctx):
         "_calculate_cc on small-integer arrays, integer data T 12..30 for the Gaussian estimators (past 1..2, "
         "ity/mit), partial correlation N 2..4, tau_max up to 12, bins up to 10, float32 caller arrays, "
         "power-of-two affine images 2^(+-20), 2^(+-40), 8-call histories on one object, T up to 90000 for the "
-        "binned estimator; distinct = "
+        "binned estimator; round 3: _get_nearest_neighbors on tied small-integer / half-integer / power-of-two-scaled "
+        "arrays (T 2..39, dim 2..6, every k < T), only_tri and _calculate_mi of the pure-Python class on small "
+        "integer / symbol arrays, surrogate matrices on re-played numpy draws (float32/float64, C/F), 8-call "
+        "histories on one pure-Python object; distinct = "
         "distinct (suite, shape, data, parameters); non-trivial = at least two non-constant series")
     ctx.trusted = common.DEFAULT_TRUSTED + [
         "log, sqrt, digamma, numpy.corrcoef, numpy.linalg.inv/pinv, scipy.linalg.qr are library "
